@@ -241,10 +241,13 @@ def pass_outcomes(cfg: CFG, m: Module, stmt: ast.AST) -> Tuple[List[Node], List[
     targets = cfg.nodes_of(stmt)
     atoms = _atoms(guard.test)
     outs: List[Node] = []
+    # inside a loop the statement is reachable again from every outcome, through the next evaluation of the guard: a path
+    # that re-enters the guard's own tests does not count
+    atom_branches = [b for b in cfg.nodes if b.kind == "branch" and any(b.ast is a for a in atoms)]
     for a in atoms:
-        for b in cfg.nodes:
-            if b.kind == "branch" and b.ast is a:
-                if cfg.find_path([b], targets) is None:
+        for b in atom_branches:
+            if b.ast is a:
+                if cfg.find_path([b], targets, avoid=[x for x in atom_branches if x is not b]) is None:
                     outs.append(b)
     return outs, atoms
 
